@@ -1013,6 +1013,15 @@ func (self *Metadata) restartLocal() error {
 					util.PrintInfo("runtime", "Possibly running  %s", self.fqname)
 				}
 			}
+		} else if err == nil {
+			// The job monitor marks the job as running (by creating its log)
+			// before it records its pid.  If it died in between there is no
+			// process to wait for, and nothing would ever reset the job.
+			if err := self.uncheckedReset(); err == nil {
+				util.PrintInfo("runtime", "(reset-running)   %s", self.fqname)
+			} else {
+				return err
+			}
 		}
 	}
 	return nil
